@@ -1436,9 +1436,8 @@ func opcodeLShift(op *ParsedOpcode, t *thread) error {
 	if err != nil {
 		return err
 	}
-	n := num.Int()
 
-	if n < 0 {
+	if num.LessThanInt(0) {
 		return errs.NewError(errs.ErrNumberTooSmall, "n less than 0")
 	}
 
@@ -1447,13 +1446,7 @@ func opcodeLShift(op *ParsedOpcode, t *thread) error {
 		return err
 	}
 
-	l := len(x)
-	for i := 0; i < l-1; i++ {
-		x[i] = x[i]<<n | x[i+1]>>(8-n)
-	}
-	x[l-1] <<= n
-
-	t.dstack.PushByteArray(x)
+	t.dstack.PushByteArray(shiftBytes(x, num, true))
 	return nil
 }
 
@@ -1462,9 +1455,8 @@ func opcodeRShift(op *ParsedOpcode, t *thread) error {
 	if err != nil {
 		return err
 	}
-	n := num.Int()
 
-	if n < 0 {
+	if num.LessThanInt(0) {
 		return errs.NewError(errs.ErrNumberTooSmall, "n less than 0")
 	}
 
@@ -1473,14 +1465,43 @@ func opcodeRShift(op *ParsedOpcode, t *thread) error {
 		return err
 	}
 
-	l := len(x)
-	for i := l - 1; i > 0; i-- {
-		x[i] = x[i]>>n | x[i-1]<<(8-n)
-	}
-	x[0] >>= n
-
-	t.dstack.PushByteArray(x)
+	t.dstack.PushByteArray(shiftBytes(x, num, false))
 	return nil
+}
+
+// shiftBytes shifts the bit string x by n (>= 0) bits, to the left or to the
+// right, and returns a new byte slice of the same length. Bits shifted out
+// are discarded and zeros are shifted in, so n >= 8*len(x) yields all zeros.
+func shiftBytes(x []byte, n *scriptNumber, left bool) []byte {
+	out := make([]byte, len(x))
+	if !n.LessThanInt(int64(len(x)) * 8) {
+		return out
+	}
+
+	shift := n.Int()
+	byteShift, bitShift := shift/8, uint(shift%8)
+	for i := range x {
+		if left {
+			k := i - byteShift
+			if k >= 0 {
+				out[k] |= x[i] << bitShift
+			}
+			if k-1 >= 0 {
+				out[k-1] |= x[i] >> (8 - bitShift)
+			}
+			continue
+		}
+
+		k := i + byteShift
+		if k < len(x) {
+			out[k] |= x[i] >> bitShift
+		}
+		if k+1 < len(x) {
+			out[k+1] |= x[i] << (8 - bitShift)
+		}
+	}
+
+	return out
 }
 
 // opcodeBoolAnd treats the top two items on the data stack as integers.  When
